@@ -83,11 +83,17 @@ class EncRun:
         """`op` is `&mut W`, W = &mut [u8]: write n provenance bytes at the view's start and advance it."""
         import stdmodel
         rp = stdmodel.ref_of(fr, op)
-        if rp is None:
-            return False
-        cur = fr._project(fr.store.get(rp[0], TOP), rp[1])
+        direct = fr.operand(op)
+        cur = fr._project(fr.store.get(rp[0], TOP), rp[1]) if rp is not None else None
+        advance = True
         if not isinstance(cur, Ref):
-            return False
+            # the writer passed by value: `&mut [u8]` itself (e.g. one chunk of the output); nothing to advance
+            if isinstance(direct, Ref):
+                cur, advance = direct, False
+            elif rp is not None and isinstance(cur, Agg):
+                cur, advance = Ref(rp[0], rp[1]), False
+            else:
+                return False
         v = cur
         for _ in range(6):
             tgt = fr._project(fr.store.get(v.root, TOP), [e for e in v.proj if e[0] != 'off'])
@@ -111,8 +117,9 @@ class EncRun:
             # canonical representation (< q < 2^381): the top three bits of the first byte are clear
             nb_ = EByte(src, k, 0xe0, 0) if k == 0 else EByte(src, k)
             fr.store[v.root] = fr._update(fr.store.get(v.root), list(base) + [['ci', lo + k, 0, False]], nb_)
-        new = Ref(v.root, list(base) + [['off', lo + n, hi - lo - n]])
-        fr.store[rp[0]] = fr._update(fr.store.get(rp[0]), list(rp[1]), new) if rp[1] else new
+        if advance:
+            new = Ref(v.root, list(base) + [['off', lo + n, hi - lo - n]])
+            fr.store[rp[0]] = fr._update(fr.store.get(rp[0]), list(rp[1]), new) if rp[1] else new
         return True
 
     def run(self):
